@@ -189,6 +189,32 @@ theorem C11_running_nodup (h : List (Nat × POp)) (p : Proc) (hp : prun {} h = .
   have hrel := prun_rel_of_ok h {} _ rel_init p hp
   exact ⟨hrel.nodup, by simp [conflicting]; omega⟩
 
+/-- **C11, state clause, running part (full strength).**  For every history the synthesis accepts: the synthetic state is a
+    running state iff some listed instance last reported a running state. -/
+theorem C11_state_running_iff (h : List (Nat × POp)) (p : Proc) (hp : prun {} h = .ok p) :
+    p.state.isRunning = true ↔ ∃ j s e, (view j h).listed = true ∧ (view j h).last = some (s, e) ∧ s.isRunning = true := by
+  have hrel := prun_rel_of_ok h {} _ rel_init p hp
+  have hv : ∀ j, foldViews (fun _ => View.init) h j = view j h := fun j => by rw [foldViews_apply]; rfl
+  rw [hrel.stateRunning]
+  constructor
+  · rintro ⟨j, hj, w, hw, hr⟩
+    have hl := (hrel.listed j).mp hj
+    have he := hrel.entries j
+    rw [hw, hv] at he
+    cases hlast : (view j h).last with
+    | none => simp [hlast] at he
+    | some se =>
+      obtain ⟨s, e⟩ := se
+      simp [hlast] at he
+      exact ⟨j, s, e, by rw [← hv]; exact hl, hlast, he ▸ hr⟩
+  · rintro ⟨j, s, e, hl, hlast, hr⟩
+    have hj : j ∈ p.running := (hrel.listed j).mpr (by rw [hv]; exact hl)
+    obtain ⟨w, hw, _⟩ := hrel.listedOk j hj
+    have he := hrel.entries j
+    rw [hw, hv, hlast] at he
+    simp at he
+    exact ⟨j, hj, w, hw, he ▸ hr⟩
+
 /-- **C11, state clause, stopped part (full strength).**  The synthetic state is never stopped-like while an instance is listed. -/
 theorem C11_stopped_state_lists_nobody (h : List (Nat × POp)) (p : Proc) (hp : prun {} h = .ok p)
     (hst : p.state.isStopped = true) : p.running = [] :=
